@@ -33,7 +33,7 @@ def rule_ops_forward(prop, repo, types=None):
     F = repo.F
     types = types or FIELD_TYPES
     R = Rule("R-OPS-FORWARD", "every operator impl (by value, by reference, compound assignment) forwards to the same operation with (self, rhs) in order; "
-             "component-wise ops act on matching components", floor=22 * len(types or FIELD_TYPES), exhaustive=True)
+             "component-wise ops act on matching components", floor=8 * len(types or FIELD_TYPES), exhaustive=True)
     for imp in F.impls:
         tr = imp.get("trait")
         if tr not in OPS or imp.get("self_adt") not in types:
@@ -665,7 +665,7 @@ def rule_tower_consts(prop, repo):
 def rule_pure(prop, repo):
     F = repo.F
     R = Rule("R-PURE", "no hidden state: no `static mut`; the only non-Freeze statics are lazy_static cells whose initialisers are closed terms over literals; value types are "
-             "Copy + Freeze; randomness enters only through an explicit RNG parameter; no unsafe code", floor=20, exhaustive=True)
+             "Copy + Freeze; randomness enters only through an explicit RNG parameter; no unsafe code", floor=8, exhaustive=True)
     for s in F.raw["statics"]:
         R.instance()
         if s["mutable"]:
@@ -778,7 +778,7 @@ def _comp(t):
 def rule_tower_shapes(prop, repo):
     F = repo.F
     R = Rule("R-TOWER-SHAPE", "component-wise / permuting maps of the tower (double, triple, div2, unitary_inverse, mul_by_nonresidue, scale, scale_fq) have their defining shape; "
-             "sparse-multiplication helpers only ever receive operands whose ignored components are literally zero", floor=14, exhaustive=True)
+             "sparse-multiplication helpers only ever receive operands whose ignored components are literally zero", floor=6, exhaustive=True)
     T2, T4, T12 = "crate::fields::fq2::Fq2", "crate::fields::fq4::Fq4", "crate::fields::fq12::Fq12"
     BY = (("param", 2), ("init", ("deref", 2)))
     specs = []
